@@ -14,6 +14,11 @@ open(W+'/ov/zz_vapi.go','w').write(open('/verif/harness/common/zz_vapi.go.tmpl')
 for f in glob.glob('/verif/harness/%s/zz_*.go'%u['harness_dir']):
     if u.get('harness_files') and os.path.basename(f) not in u['harness_files']: continue
     shutil.copy(f,W+'/ov/')
+import subprocess
+for g in u.get('generate') or []:
+    outp=W+'/ov/'+g['out']
+    subprocess.run([a.replace('{repo}','/repo').replace('{out}',outp).replace('{verif}','/verif') for a in g['cmd']],check=True)
+    _src=open(outp).read().replace('PKGNAME',pk); open(outp,'w').write(_src)
 u=dict(u); u['overlay_dir']=W+'/ov'; u['property']=pid
 json.dump(u,open(W+'/cfg.json','w'))
 PY
